@@ -10,6 +10,7 @@
    applies them to rendered type strings; rendered types are an AST [rty] with printer [show].  The JSON
    decoder / cattrs are abstract (Section variables in Proofs/Response.v).  No proofs in this file. *)
 From PG Require Import Lib.Strs Model.Dispatch.
+From PG Require Export Gen.T_C05.
 
 (* ------------------------------------------------------------------ string primitives (ASCII domain) *)
 Fixpoint find_from (p s : str) (i : nat) (fuel : nat) : option nat :=      (* s.find(p) *)
@@ -55,11 +56,6 @@ Definition s_Any := L[65;110;121].  Definition s_Dict := L[68;105;99;116].  Defi
 Definition s_dict := L[100;105;99;116].  Definition s_list := L[108;105;115;116].  Definition s_tuple := L[116;117;112;108;101].
 Definition s_Union := L[85;110;105;111;110].  Definition s_Tuple := L[84;117;112;108;101].
 Definition s_Optional := L[79;112;116;105;111;110;97;108].
-Definition builtin_names : list str :=
-  [s_str; s_int; s_float; s_bool; s_bytes; s_None; s_Any; s_Dict; s_List; s_dict; s_list; s_tuple].
-Definition construct_prefixes : list str :=     (* ("dict[", "List[", "Union[", "Tuple[", "dict[", "list[", "tuple[") *)
-  [s_dict ++ s_lb; s_List ++ s_lb; s_Union ++ s_lb; s_Tuple ++ s_lb; s_dict ++ s_lb; s_list ++ s_lb; s_tuple ++ s_lb].
-Definition s_object := L[111;98;106;101;99;116].  Definition s_array := L[97;114;114;97;121].
 Definition s_string := L[115;116;114;105;110;103].  Definition s_integer := L[105;110;116;101;103;101;114].
 Definition s_number := L[110;117;109;98;101;114].  Definition s_boolean := L[98;111;111;108;101;97;110].
 Definition s_bar_None := L[32;124;32;78;111;110;101].         (* " | None" *)
@@ -90,8 +86,7 @@ Definition is_alias_to_array (reg : registry) (t : str) : bool :=
 Definition is_alias_to_primitive (reg : registry) (t : str) : bool :=
   match alookup (cut_bracket t) reg with
   | Some i => is_type_alias i &&
-              (opt_str_eqb (si_type i) s_string || opt_str_eqb (si_type i) s_integer
-               || opt_str_eqb (si_type i) s_number || opt_str_eqb (si_type i) s_boolean)
+              (match si_type i with Some ty => mem_str ty alias_prim_types | None => false end)
   | None => false
   end.
 Definition extract_array_item_type (reg : registry) (t : str) : str :=
@@ -115,7 +110,7 @@ Definition is_dataclass_type (reg : registry) (t : str) : bool :=
   else let base := cut_bracket t in
        match alookup base reg with
        | Some i => opt_str_eqb (si_type i) s_object || si_props i
-       | None => first_upper base && negb (mem_str base [s_Dict; s_List; s_Union; s_Tuple; s_Optional])
+       | None => first_upper base && negb (mem_str base not_model_names_dataclass)
        end.
 
 (* _should_use_cattrs_structure.  Domain: the extracted base type is non-empty (else Python raises IndexError). *)
@@ -135,7 +130,7 @@ Definition should_use_cattrs (reg : registry) (t : str) : bool :=
   else if is_alias_to_primitive reg t then false
   else if is_alias_to_array reg t then is_dataclass_type reg (extract_array_item_type reg t)
   else contains_s s_dot base
-       || (first_upper base && negb (mem_str base [s_Dict; s_List; s_Union; s_Tuple; s_dict; s_list; s_tuple])).
+       || (first_upper base && negb (mem_str base not_model_names_cattrs)).
 
 (* _get_cattrs_deserialization_code(return_type, data_expr): the code string, or None for ValueError *)
 Definition sfd (d t : str) : str := s_sfd ++ d ++ s_comma_sp ++ t ++ [41].
@@ -216,26 +211,20 @@ Record centry := { c_media : str; c_type : rty; c_binfmt : bool }.
 Record cresp := { cr_code : code; cr_content : list centry }.
 Definition cop := list cresp.
 
-Definition m_json := L[97;112;112;108;105;99;97;116;105;111;110;47;106;115;111;110].      (* application/json *)
-Definition m_octet := L[97;112;112;108;105;99;97;116;105;111;110;47;111;99;116;101;116;45;115;116;114;101;97;109].
-Definition m_pdf := L[97;112;112;108;105;99;97;116;105;111;110;47;112;100;102].
-Definition m_sse := L[116;101;120;116;47;101;118;101;110;116;45;115;116;114;101;97;109].        (* text/event-stream *)
-Definition m_ndjson := L[97;112;112;108;105;99;97;116;105;111;110;47;120;45;110;100;106;115;111;110].
-Definition m_jsonseq := L[97;112;112;108;105;99;97;116;105;111;110;47;106;115;111;110;45;115;101;113].
-Definition m_mpmixed := L[109;117;108;116;105;112;97;114;116;47;109;105;120;101;100].
-Definition w_json := L[106;115;111;110].  Definition w_event_stream := L[101;118;101;110;116;45;115;116;114;101;97;109].
-Definition p_text := L[116;101;120;116;47].  Definition p_image := L[105;109;97;103;101;47].
-Definition p_audio := L[97;117;100;105;111;47].  Definition p_video := L[118;105;100;101;111;47].
 Definition lower_s (s : str) : str := map lower_ascii s.
 
 (* parser.py: STREAM_FORMATS.get(mt.lower()) for any entry, else any schema format == "binary" *)
-Definition stream_formats : list str := [m_octet; m_sse; m_ndjson; m_jsonseq; m_mpmixed].
 Definition is_stream (r : cresp) : bool :=
   existsb (fun e => mem_str (lower_s (c_media e)) stream_formats) (cr_content r)
   || existsb c_binfmt (cr_content r).
 
+(* parser.py: stream_format = the format of the LAST content entry found in STREAM_FORMATS *)
+Definition stream_format_of (r : cresp) : option str :=
+  fold_left (fun acc e => match alookup (lower_s (c_media e)) stream_format_table with Some f => Some f | None => acc end)
+            (cr_content r) None.
+
 Definition is_binary_media (m : str) : bool :=
-  str_eqb m m_octet || str_eqb m m_pdf || starts_any [p_image; p_audio; p_video] m.
+  mem_str m binary_media_exact || starts_any binary_media_prefixes m.
 
 (* _resolve_content_type_to_python_type; the schema object is always present (parser fills a placeholder),
    and every modelled schema has a `type`/`format` attribute *)
@@ -256,7 +245,7 @@ Definition strategy_schema (cs : list centry) : option centry :=
   end.
 (* response_handler_generator._get_response_schema: application/json, else first *)
 Definition handler_schema (cs : list centry) : option centry :=
-  match find (fun e => str_eqb (c_media e) m_json) cs with Some e => Some e | None => hd_error cs end.
+  match find (fun e => str_eqb (c_media e) m_json_handler) cs with Some e => Some e | None => hd_error cs end.
 
 Definition rty_eqb_show (a b : rty) : bool := str_eqb (show a) (show b).
 Fixpoint dedup_types (ts : list rty) (seen : list rty) : list rty :=     (* `if python_type not in resolved_types` on strings *)
@@ -316,6 +305,7 @@ Inductive path :=
 | PStructure (code : str)     (* return <structure_from_dict(response.json(), …)> — needs the cattrs import *)
 | PStreamBytes                (* async for chunk in iter_bytes(response): yield chunk *)
 | PStreamSse                  (* async for chunk in iter_sse_events_text(response): yield json.loads(chunk) *)
+| PStreamNdjson (typed : bool) (* async for item in iter_ndjson(response): yield item | structure_from_dict(item, T) *)
 | PEndIter                    (* bare `return` in an async generator: the iteration yields nothing and ends *)
 | PRaiseHTTP                  (* no case for this status: the `case _` raises HTTPError *)
 | PGenError.                  (* the generator raises ValueError while rendering *)
@@ -340,16 +330,47 @@ Fixpoint switch (reg : registry) (m : list (str * rty)) (ct : str) : path :=
   | (k, t) :: rest => if str_eqb ct (lower_s k) then switch_path reg t else switch reg rest ct
   end.
 
+(* _raw_body_accessor(content_types, python_type): text/* -> response.text, binary media -> response.content *)
+Definition raw_accessor (cs : list centry) (t : rty) : option path :=
+  match cs with
+  | [] => None
+  | _ => if negb (mem_str (show t) raw_body_types) then None
+         else if forallb (fun e => prefixb p_text (c_media e)) cs
+              then (if str_eqb (show t) s_bytes then None else Some PText)
+         else if forallb (fun e => is_binary_media (c_media e)) cs
+              then (if str_eqb (show t) s_str then None else Some PContent)
+         else None
+  end.
+Definition pc_of (o : cop) : list centry := match cprimary o with Some r => cr_content r | None => [] end.
+
+(* _is_ndjson_stream(strategy): the primary response's stream_format is "ndjson" and it has no event-stream content *)
+Definition is_ndjson_resp (r : cresp) : bool :=
+  opt_eqb str_eqb (stream_format_of r) (Some s_fmt_ndjson)
+  && negb (existsb (fun e => contains_s w_event_stream (c_media e)) (cr_content r)).
+Definition nd_of (o : cop) : bool := match cprimary o with Some r => is_ndjson_resp r | None => false end.
+Definition s_item : str := [105;116;101;109].
+(* the three streaming renderings; [nd] = _is_ndjson_stream(strategy) *)
+Definition stream_path (reg : registry) (nd : bool) (s : strategy) : path :=
+  if contains_s (show (TAsyncIter (TPrim PBytesT))) (show (st_ret s)) then PStreamBytes
+  else if nd then
+    match st_ret s with
+    | TAsyncIter t => if should_use_cattrs reg (show t)
+                      then match deser_code reg (show t) s_item with Some _ => PStreamNdjson true | None => PGenError end
+                      else PStreamNdjson false
+    | _ => PGenError
+    end
+  else PStreamSse.
+
 (* _write_strategy_based_return *)
-Definition strategy_path (reg : registry) (s : strategy) (ct : str) : path :=
-  if st_streaming s then
-    (if contains_s (show (TAsyncIter (TPrim PBytesT))) (show (st_ret s)) then PStreamBytes else PStreamSse)
-  else if prefixb (s_Union ++ s_lb) (show (st_ret s)) then
+Definition strategy_path (reg : registry) (nd : bool) (pc : list centry) (s : strategy) (ct : str) : path :=
+  if st_streaming s then stream_path reg nd s
+  else match raw_accessor pc (st_ret s) with Some p => p | None =>
+  if prefixb (s_Union ++ s_lb) (show (st_ret s)) then
     match st_mapping s with
     | Some m => switch reg m ct
     | None => PGenError     (* try/except union chain: never produced by resolve (it always sets the mapping) *)
     end
-  else json_path reg (st_ret s).
+  else json_path reg (st_ret s) end.
 
 Definition is_none_ret (s : strategy) : bool := str_eqb (show (st_ret s)) s_None.
 
@@ -364,16 +385,16 @@ Definition cprocessed (o : cop) : option (cresp * N) :=
 (* a further 2xx response.  In a streaming operation (the method is an async generator) it is consumed with the
    operation's streaming strategy, or ends the iteration with a bare `return` when it has no body; otherwise it is
    resolved individually *)
-Definition secondary_path (reg : registry) (s : strategy) (ct : str) (r : cresp) : path :=
+Definition secondary_path (reg : registry) (nd : bool) (s : strategy) (ct : str) (r : cresp) : path :=
   if st_streaming s then
     match cr_content r with
     | [] => PEndIter
-    | _ => (if contains_s (show (TAsyncIter (TPrim PBytesT))) (show (st_ret s)) then PStreamBytes else PStreamSse)
+    | _ => stream_path reg nd s
     end
   else
   match handler_schema (cr_content r) with
   | None => PNone
-  | Some e => json_path reg (c_type e)
+  | Some e => match raw_accessor (cr_content r) (c_type e) with Some p => p | None => json_path reg (c_type e) end
   end.
 
 Definition cothers (o : cop) : cop :=
@@ -392,19 +413,20 @@ Definition is_strategy_resp (o : cop) (r : cresp) : bool :=
 
 Definition handle (reg : registry) (o : cop) (st : N) (ct : str) : path :=
   let s := resolve o in
-  let prim_path := if is_none_ret s then PNone else strategy_path reg s ct in
+  let nd := nd_of o in
+  let prim_path := if is_none_ret s then PNone else strategy_path reg nd (pc_of o) s ct in
   (* `case _:` — a default response with content returns only under `if 200 <= status < 300:` *)
   let default_branch :=
     if default_returns (map to_resp o) && in_range default_success_lo default_success_hi st then prim_path else PRaiseHTTP in
   let after_primary :=
     match find_status st (cothers o) with
     | Some r => match cr_code r with
-                | Num m => if lead2 m then secondary_path reg s ct r else PRaiseHTTP
+                | Num m => if lead2 m then secondary_path reg nd s ct r else PRaiseHTTP
                 | _ => PRaiseHTTP
                 end
     | None => match wildcard_resp o with
               | Some w => if in_range wildcard_lo wildcard_hi st
-                          then (if is_strategy_resp o w then prim_path else secondary_path reg s ct w)
+                          then (if is_strategy_resp o w then prim_path else secondary_path reg nd s ct w)
                           else default_branch
               | None => default_branch
               end
@@ -416,15 +438,17 @@ Definition handle (reg : registry) (o : cop) (st : N) (ct : str) : path :=
 
 (* structure_from_dict is imported by every branch that renders it: the primary/default strategy branch, the
    entries of a content-type switch, and every secondary 2xx branch (numeric or the "2XX" range) *)
-Definition strategy_registers (reg : registry) (s : strategy) : bool :=
-  negb (is_none_ret s) && negb (st_streaming s)
-  && if prefixb (s_Union ++ s_lb) (show (st_ret s)) then
+Definition strategy_registers (reg : registry) (nd : bool) (pc : list centry) (s : strategy) : bool :=
+  negb (is_none_ret s)
+  && if st_streaming s then match stream_path reg nd s with PStreamNdjson true => true | _ => false end
+     else match raw_accessor pc (st_ret s) with Some _ => false | None =>
+     if prefixb (s_Union ++ s_lb) (show (st_ret s)) then
        match st_mapping s with
        | Some m => existsb (fun kt => negb (str_eqb (show (snd kt)) s_bytes) && negb (str_eqb (show (snd kt)) s_str)
                                       && should_use_cattrs reg (show (snd kt))) m
        | None => false
        end
-     else should_use_cattrs reg (show (st_ret s)).
+     else should_use_cattrs reg (show (st_ret s)) end.
 Definition emits_strategy (o : cop) : bool :=
   match cprocessed o with Some _ => true | None => false end
   || match wildcard_resp o with Some w => is_strategy_resp o w | None => false end
@@ -435,16 +459,19 @@ Definition is_secondary_2xx (o : cop) (r : cresp) : bool :=
   | c => is_wildcard_2xx c && negb (is_strategy_resp o r)
   end.
 Definition secondary_registers (reg : registry) (r : cresp) : bool :=
-  match handler_schema (cr_content r) with Some e => should_use_cattrs reg (show (c_type e)) | None => false end.
+  match handler_schema (cr_content r) with
+  | Some e => match raw_accessor (cr_content r) (c_type e) with Some _ => false | None => should_use_cattrs reg (show (c_type e)) end
+  | None => false
+  end.
 Definition registers_cattrs (reg : registry) (o : cop) : bool :=
-  emits_strategy o && strategy_registers reg (resolve o)
+  (emits_strategy o || st_streaming (resolve o) && existsb (fun r => is_secondary_2xx o r && match cr_content r with [] => false | _ => true end) (cothers o)) && strategy_registers reg (nd_of o) (pc_of o) (resolve o)
   || negb (st_streaming (resolve o)) && existsb (fun r => is_secondary_2xx o r && secondary_registers reg r) (cothers o).
 Definition module_has_cattrs (reg : registry) (ops : list cop) : bool := existsb (registers_cattrs reg) ops.
 
 (* ------------------------------------------------------------------ the property, on the decision model *)
 Definition json_like (m : str) : bool := negb (is_binary_media m) && negb (prefixb p_text m).
 (* what the declared response (status, one of its content entries) calls for, from the property text *)
-Inductive want := WNone | WText | WBytes | WStreamBytes | WStreamEvents | WStreamItems | WJsonTyped (t : rty) | WJsonRaw (t : rty).
+Inductive want := WNone | WText | WBytes | WStreamBytes | WStreamEvents | WStreamLines | WStreamItems | WJsonTyped (t : rty) | WJsonRaw (t : rty).
 
 Definition ideal (primary : bool) (r : cresp) (e : option centry) : want :=
   match e with
@@ -454,7 +481,8 @@ Definition ideal (primary : bool) (r : cresp) (e : option centry) : want :=
         (if existsb (fun x => is_binary_media (c_media x)) (cr_content r) || existsb c_binfmt (cr_content r)
          then WStreamBytes
          else if existsb (fun x => contains_s w_event_stream (c_media x)) (cr_content r) then WStreamEvents
-         else WStreamItems)    (* ndjson / json-seq / multipart: one item per record *)
+         else if is_ndjson_resp r then WStreamLines    (* ndjson: one JSON item per line *)
+         else WStreamItems)    (* json-seq / multipart: one item per record *)
       else if is_binary_media (c_media e) then WBytes
       else if prefixb p_text (c_media e) then WText
       else if needs_structure (c_type e) then WJsonTyped (c_type e) else WJsonRaw (c_type e)
@@ -470,6 +498,7 @@ Definition delivers (imported : bool) (p : path) (w : want) : bool :=
   | PContent, WBytes => true
   | PStreamBytes, WStreamBytes => true
   | PStreamSse, WStreamEvents => true
+  | PStreamNdjson _, WStreamLines => true
   | PCast, WJsonRaw _ => true
   | PStructure c, WJsonTyped t =>
       imported && (str_eqb c (sfd s_rj (show t))
@@ -540,10 +569,19 @@ Definition C05_holds (d : dcase) : bool :=
      | _ => true
      end.
 
-(* F05b: the string heuristic and the annotated type disagree on whether the JSON must be structured *)
+(* F05b: the string heuristic and the annotated type disagree on whether the JSON must be structured — or, when it
+   structures, the rendered call does not target the declared type itself *)
+Definition deser_direct (reg : registry) (t : rty) : bool :=
+  match deser_code reg (show t) s_rj with
+  | Some c => str_eqb c (sfd s_rj (show t))
+              || match t with TOpt u => str_eqb c (sfd s_rj (show u) ++ s_if_not_none s_rj) | _ => false end
+  | None => false
+  end.
 Definition guard_F05b (d : dcase) : bool :=
   match the_entry d with
-  | Some e => if negb (is_stream (the_resp d)) && json_like (c_media e) then heuristic_ok (d_reg d) (c_type e) else true
+  | Some e => if negb (is_stream (the_resp d)) && json_like (c_media e)
+              then heuristic_ok (d_reg d) (c_type e) && implb (needs_structure (c_type e)) (deser_direct (d_reg d) (c_type e))
+              else true
   | None => true
   end.
 (* F05c: a non-JSON body that the handler nevertheless feeds to response.json() (single text/binary content;
@@ -566,11 +604,24 @@ Definition guard_F05c (d : dcase) : bool :=
         negb picked_other
         && (single || collapsed || negb (is_primary_case d)
             || negb (mem_str (show (ctype_to_python e)) [s_str; s_bytes]))
-      else negb (single || collapsed || negb (is_primary_case d))
+      else
+        let raw := if is_primary_case d then raw_accessor (cr_content r) (st_ret (resolve (the_cop d)))
+                   else match handler_schema (cr_content r) with
+                        | Some h => raw_accessor (cr_content r) (c_type h) | None => None end in
+        match raw with
+        | Some PText => prefixb p_text (c_media e)           (* rendered `return response.text` *)
+        | Some PContent => is_binary_media (c_media e)       (* rendered `return response.content` *)
+        | _ => is_primary_case d && negb (single || collapsed)   (* otherwise only a Content-Type switch delivers text/bytes *)
+        end
   end.
-(* F05f: line/record streams (ndjson, json-seq, multipart) are read with the SSE parser *)
+(* F05f: record streams that are not read by a record parser: json-seq / multipart (SSE parser), or an ndjson stream
+   for which the ndjson rendering is not reached (e.g. the primary's items are bytes) *)
 Definition guard_F05f (d : dcase) : bool :=
-  match the_want d with WStreamItems => false | _ => true end.
+  match the_want d with
+  | WStreamItems => false
+  | WStreamLines => match stream_path (d_reg d) (nd_of (the_cop d)) (resolve (the_cop d)) with PStreamNdjson _ => true | _ => false end
+  | _ => true
+  end.
 (* F05i: a JSON response whose type the single return annotation does not cover (secondary 2xx of another type) *)
 Definition guard_F05i (d : dcase) : bool :=
   match the_entry d with
@@ -581,3 +632,35 @@ Definition guard_F05i (d : dcase) : bool :=
 
 Definition c05_guard (d : dcase) : bool :=
   guard_F05b d && guard_F05c d && guard_F05f d && guard_F05i d.
+
+(* ------------------------------------------------------------------ well-formed cases (executable) *)
+(* what a declared-2xx-response x content-entry case must satisfy to be an input of the property at all:
+   indices in range, response keys unique (they are keys of a JSON/YAML mapping), the response is a declared
+   2xx (numeric key starting with "2", or the one "2XX" range key with a free 2xx status to answer with), the entry
+   index matches the content, media types unique up to case, and per entry: the rendered type is not "None" and
+   does not start with "Union[", and `format: binary` is only used under a binary media type. *)
+Fixpoint distinct_codes (l : list code) : bool :=
+  match l with [] => true | c :: r => negb (existsb (code_eqb c) r) && distinct_codes r end.
+Fixpoint distinct_strs_b (l : list str) : bool :=
+  match l with [] => true | x :: r => negb (mem_str x r) && distinct_strs_b r end.
+Definition entry_type_ok (e : centry) : bool :=
+  negb (str_eqb (show (ctype_to_python e)) s_None) && negb (prefixb (s_Union ++ s_lb) (show (ctype_to_python e)))
+  && negb (str_eqb (show (c_type e)) s_None) && negb (prefixb (s_Union ++ s_lb) (show (c_type e)))
+  && implb (c_binfmt e) (is_binary_media (c_media e)).
+Definition wf_dcase (d : dcase) : bool :=
+  let o := the_cop d in let r := the_resp d in
+  Nat.ltb (d_op d) (length (d_module d)) && Nat.ltb (d_resp d) (length o)
+  && distinct_codes (map cr_code o)
+  && match cr_code r with
+     | Num n => lead2 n
+     | c => is_wildcard_2xx c
+            && forallb (fun x => implb (is_wildcard_2xx (cr_code x)) (code_eqb (cr_code x) c)) o
+            && negb (declared_num o (the_status d)) && in_range wildcard_lo wildcard_hi (the_status d)
+     end
+  && match d_entry d with
+     | Some i => Nat.ltb i (length (cr_content r))
+     | None => match cr_content r with [] => true | _ => false end
+     end
+  && distinct_strs_b (map (fun e => lower_s (c_media e)) (cr_content r))
+  && forallb entry_type_ok (cr_content r).
+
